@@ -3,6 +3,7 @@ package sim
 import (
 	"encoding/json"
 	"fmt"
+	"strings"
 )
 
 // C07 – pagination returns every matching relationship exactly once (tier S).
@@ -42,6 +43,19 @@ func runC07(env *Env, rc *RunCtx) {
 	if shape&2 != 0 {
 		q.Obj = &obj
 	}
+	// one run in eight: the query names one relationship completely (namespace,
+	// object, relation AND subject) and the store holds n copies of it - the
+	// matching "set" is a multiset of equal rows
+	var oneSub *Subject
+	if t.Bool(1, 8) {
+		q.Rel, q.Obj = &rel, &obj
+		oneSub = &Subject{ID: pick(t, dom.Users)}
+		if t.Bool(1, 3) {
+			oneSub = &Subject{Set: &SetRef{NS: pick(t, dom.NS), Obj: "g0", Rel: pick(t, dom.Rels)}}
+		}
+		q.Sub = oneSub
+		rc.Count("probe_fully_qualified_query_over_copies", 1)
+	}
 	sizes := []int{0, 1, 2, 3, 5, 7, 20, 99, 100, 101, 150, 199, 200, 201, 205}
 	if rc.Tier == "quick" {
 		sizes = []int{0, 1, 2, 3, 5, 7, 20, 99, 100, 101, 105}
@@ -65,6 +79,9 @@ func runC07(env *Env, rc *RunCtx) {
 		}
 		if t.Bool(1, 5) {
 			x.Sub = Subject{Set: &SetRef{NS: pick(t, dom.NS), Obj: fmt.Sprintf("g%d", i%3), Rel: pick(t, dom.Rels)}}
+		}
+		if oneSub != nil {
+			x.Sub = *oneSub
 		}
 		return x
 	}
@@ -277,6 +294,58 @@ func runC07Tokens(env *Env, rc *RunCtx, sys *Sys, dom Domain) {
 		tok = string(b)
 	}
 	grpcT := t.Bool(1, 2)
+	// Tokens that look like tokens: derived from a token the server has just
+	// issued, or drawn from the alphabets tokens are usually made of, with lengths
+	// around the sizes of common encodings of a 16-byte id. Whether the server
+	// takes such a token for one of its own is its business (a UUID without dashes
+	// may well parse): it must answer with a page or with a client error, never
+	// with a server error.
+	lookalike := false
+	if t.Bool(1, 2) {
+		lookalike = true
+		var first *Page
+		if grpcT {
+			_, first = sys.ListGRPC(q, 1, "")
+		} else {
+			_, first = sys.ListREST(q, 1, "", true)
+		}
+		real := ""
+		if first != nil {
+			real = first.Next
+		}
+		if real == "" {
+			env.T.Fatalf("harness: no next page token for a listing of 3 rows with page size 1")
+		}
+		alpha := []string{"abcdefghijklmnopqrstuvwxyzABCDEFGHIJKLMNOPQRSTUVWXYZ0123456789_-", "0123456789abcdef", "ABCDEFGHIJKLMNOPQRSTUVWXYZabcdefghijklmnopqrstuvwxyz0123456789+/="}[t.Choose(3)]
+		rnd := func(n int) string {
+			b := make([]byte, n)
+			for i := range b {
+				b[i] = alpha[t.Choose(len(alpha))]
+			}
+			return string(b)
+		}
+		switch t.Choose(9) {
+		case 0:
+			tok = real + string(alpha[t.Choose(len(alpha))])
+		case 1:
+			tok = real + real
+		case 2:
+			tok = strings.ReplaceAll(real, "-", "")
+		case 3:
+			tok = real[:len(real)-1]
+		case 4:
+			tok = real + strings.Repeat("A", []int{1, 2, 10, 100, 4096}[t.Choose(5)])
+		case 5:
+			tok = strings.ToUpper(real)
+		case 6:
+			i := t.Choose(len(real))
+			tok = real[:i] + string(alpha[t.Choose(len(alpha))]) + real[i+1:]
+		case 7:
+			tok = "{" + real + "}"
+		default:
+			tok = rnd([]int{1, 8, 15, 16, 17, 21, 22, 23, 24, 25, 31, 32, 33, 35, 36, 37, 38, 43, 44, 45, 64, 100, 4096}[t.Choose(23)])
+		}
+	}
 	var r Resp
 	if grpcT {
 		r, _ = sys.ListGRPC(q, 1, tok)
@@ -292,11 +361,17 @@ func runC07Tokens(env *Env, rc *RunCtx, sys *Sys, dom Domain) {
 	}
 	rc.Count("malformed_tokens_"+tr, 1)
 	w := map[string]any{"token": tok, "transport": tr, "response": r.String()}
-	if r.OK() {
+	if lookalike {
+		rc.Count("lookalike_tokens", 1)
+		if r.OK() {
+			rc.Count("lookalike_tokens_taken_for_real", 1)
+		}
+	}
+	if r.OK() && !lookalike {
 		rc.Violate("malformed-token-accepted", tr, fmt.Sprintf("page_token %q was accepted: %s", tok, r), w, -1, nil)
 		return
 	}
-	if !r.ClientError() {
+	if !r.OK() && !r.ClientError() {
 		rc.Violate("malformed-token-not-client-error", tr, fmt.Sprintf("page_token %q answered %s (expected a 4xx / InvalidArgument-class answer)", tok, r), w, -1, nil)
 		return
 	}
